@@ -128,8 +128,8 @@ def gen_supported(ctx, thorough):
     """specs of conforming targets (the sampler must accept and draw exactly)"""
     rng = ctx.rng
     specs = []
-    ngauss = 3000 if thorough else 70
-    ngmrf = 5000 if thorough else 110
+    ngauss = 3000 if thorough else 120
+    ngmrf = 5000 if thorough else 200
     for i in range(ngauss):
         n = rng.choice([1, 2, 3, 4, 5, 6, 7, 8, 10, 12, 16, 24, 40] if not thorough else list(range(1, 41)) + [80, 120])
         if i % 23 == 22:
